@@ -147,3 +147,19 @@ type WNoCmp struct {
 
 func (e WNoCmp) Error() string { return e.Msg + ": " + e.Err.Error() }
 func (e WNoCmp) Unwrap() error { return e.Err }
+
+// MCause is a multi-cause error (Unwrap() []error) that ALSO designates its first member as
+// its cause through Cause(), as older multi-error types do.
+type MCause struct {
+	Msg  string
+	Errs []error
+}
+
+func (e *MCause) Error() string   { return e.Msg }
+func (e *MCause) Unwrap() []error { return e.Errs }
+func (e *MCause) Cause() error {
+	if len(e.Errs) == 0 {
+		return nil
+	}
+	return e.Errs[0]
+}
